@@ -22,11 +22,11 @@ NPROC = int(os.environ.get("VERIF_LANE_PROCS", "16"))
 T = {
     "C13": {
         "quick": [("miri", "c13", 64, 16, 0, "sb")],
-        "thorough": [("miri", "c13", 64, 64, 0, "sb"), ("miri", "smoke", 2, 2, 0, "nosb"), ("asan", "C13")],
+        "thorough": [("miri", "c13", 64, 64, 0, "sb"), ("miri", "smoke", 3, 3, 0, "nosb"), ("asan", "C13")],
     },
     "C12": {
         "quick": [("miri", "c12", 16, 16, 10, "sb")],
-        "thorough": [("miri", "c12", 32, 32, 30, "sb"), ("miri", "smoke", 2, 2, 0, "nosb"), ("asan", "C12")],
+        "thorough": [("miri", "c12", 32, 32, 30, "sb"), ("miri", "smoke", 3, 3, 0, "nosb"), ("asan", "C12")],
     },
     "C02": {"thorough": [("miri", "c02", 16, 16, 1500, "sb")]},
     "C08": {"thorough": [("miri", "c08", 16, 16, 1500, "sb")]},
